@@ -7,6 +7,23 @@
 // appends nothing, creates no label / fixup / relocation / section / node, clears the one-shot instruction state — also when the handler
 // throws; a successful instruction on the Assembler appends bytes that LLVM MC decodes as complete instruction(s) of exactly that length;
 // at the end a fixed probe program must come out byte-identical to a fresh emitter's.
+//
+// Builder / Compiler run with generated DiagnosticOptions (kValidateAssembler|kValidateIntermediate, kValidateIntermediate only,
+// kValidateAssembler only, none); register ids of register operands, memory bases / indexes and the extra register also come from the
+// virtual-id range (>= Operand::kVirtIdMin) and from the boundaries of the physical range. Differential oracle for a Builder (and for a
+// Compiler as long as no virtual id was accepted; no functions are created, so it is a Builder with an empty RA pass): every call the
+// Builder accepted is repeated on a strict "shadow" x86::Assembler on its own CodeHolder.
+//  * kValidateIntermediate: an accepted instruction must be accepted by the public InstAPI::validate() called the way the strict Assembler
+//    calls it (all six operand slots; no kEnableVirtRegs for a Builder), and - Assembler and Builder - must not carry a register id of the
+//    virtual range at all (only a Compiler has an allocator). What validate() admits and only the encoder refuses is property C13's
+//    validator / encoder disagreement: counted per error code (validated_but_encoder_rejects:*), not a failure here;
+//  * a rejected call leaves node list, cursor, emitter flags / options / handler untouched;
+//  * at the end the nodes are serialised (Builder::finalize() when it propagates kValidateAssembler, else serialize_to() a strict Assembler -
+//    arbitrary operand kinds are in the property's domain only under strict validation): that must fail iff the shadow rejected one of the
+//    accepted calls and otherwise produce exactly the shadow's bytes, label offsets and relocation / fixup counts - never silently different
+//    code (single-section scripts; a Builder groups nodes by section, so scripts that switch sections are only counted).
+// Triage aids: VH_PRINT_SCRIPT=1 prints the decoded script of every input, VH_SHOW_KNOWN=1 the first script of every routed-around key;
+// tools/c14_mkseeds.py encodes scripts into this byte format (seed corpus, regress inputs).
 #include <fuzzer/FuzzedDataProvider.h>
 
 #include <asmjit/core.h>
@@ -16,7 +33,9 @@
 #include <cstdio>
 #include <cstdlib>
 #include <cstring>
+#include <functional>
 #include <map>
+#include <memory>
 #include <set>
 #include <string>
 #include <unordered_set>
@@ -32,7 +51,7 @@ struct Counters {
   std::unordered_set<uint64_t> hashes;
   std::vector<std::string> samples;
   std::set<std::string> known;
-  bool inited = false;
+  bool inited = false, print_script = false;   // VH_PRINT_SCRIPT=1: print the decoded script of every input (triage / writing seeds)
 } g;
 
 uint64_t fnv(const uint8_t* p, size_t n) { uint64_t h = 1469598103934665603ull; for (size_t i = 0; i < n; i++) { h ^= p[i]; h *= 1099511628211ull; } return h; }
@@ -63,10 +82,21 @@ void init_once() {
   g.inited = true;
   const char* k = getenv("VH_KNOWN");
   if (k) { std::string s(k); size_t p = 0; while (p <= s.size()) { size_t q = s.find(',', p); if (q == std::string::npos) q = s.size(); if (q > p) g.known.insert(s.substr(p, q - p)); p = q + 1; } }
+  g.print_script = getenv("VH_PRINT_SCRIPT") != nullptr;
   atexit(flush_counters);
 }
 
-bool is_known(const std::string& key) { return g.known.count(key) != 0; }
+// exact key, or a listed "prefix*"
+bool is_known(const std::string& key) {
+  if (g.known.count(key) != 0) return true;
+  for (const std::string& k : g.known) if (!k.empty() && k.back() == '*' && key.compare(0, k.size() - 1, k, 0, k.size() - 1) == 0) return true;
+  return false;
+}
+
+// VH_SHOW_KNOWN=1: print the first script of every routed-around key (triage aid)
+void note_known(const std::string& key, const std::string& script) {
+  if (g.known_hits[key]++ == 0 && getenv("VH_SHOW_KNOWN")) fprintf(stderr, "KNOWN-HIT %s\nscript: %s\n", key.c_str(), script.c_str());
+}
 
 [[noreturn]] void oracle_fail(const std::string& key, const std::string& msg, const std::string& script) {
   fprintf(stderr, "ORACLE %s: %s\nscript: %s\n", key.c_str(), msg.c_str(), script.c_str());
@@ -84,19 +114,25 @@ public:
 
 struct Snap {
   size_t sections = 0, labels = 0, relocs = 0, fixups = 0, nodes = 0; std::vector<size_t> sizes;
-  bool operator==(const Snap& o) const { return sections == o.sections && labels == o.labels && relocs == o.relocs && fixups == o.fixups && nodes == o.nodes && sizes == o.sizes; }
+  const void* cursor = nullptr; const void* first = nullptr; const void* last = nullptr; const void* handler = nullptr;
+  uint32_t eflags = 0, enc = 0, diag = 0, forced = 0;
+  bool operator==(const Snap& o) const {
+    return sections == o.sections && labels == o.labels && relocs == o.relocs && fixups == o.fixups && nodes == o.nodes && sizes == o.sizes &&
+           cursor == o.cursor && first == o.first && last == o.last && handler == o.handler && eflags == o.eflags && enc == o.enc && diag == o.diag && forced == o.forced;
+  }
 };
 
 size_t count_nodes(BaseBuilder* b) { size_t n = 0; for (BaseNode* p = b->first_node(); p; p = p->next()) n++; return n; }
 
-Snap snap(CodeHolder& code, BaseBuilder* bb) {
+Snap snap(CodeHolder& code, BaseBuilder* bb, BaseEmitter* e) {
   Snap s; s.sections = code.section_count(); s.labels = code.label_count(); s.relocs = code.reloc_entries().size(); s.fixups = code.unresolved_fixup_count();
   for (Section* sec : code.sections()) s.sizes.push_back(sec->buffer_size());
-  if (bb) s.nodes = count_nodes(bb);
+  if (bb) { s.nodes = count_nodes(bb); s.cursor = bb->cursor(); s.first = bb->first_node(); s.last = bb->last_node(); }
+  s.handler = e->error_handler(); s.eflags = uint32_t(e->emitter_flags()); s.enc = uint32_t(e->encoding_options()); s.diag = uint32_t(e->diagnostic_options()); s.forced = uint32_t(e->forced_inst_options());
   return s;
 }
 
-std::string snap_text(const Snap& s) { char b[160]; size_t tot = 0; for (size_t z : s.sizes) tot += z; snprintf(b, sizeof b, "sections=%zu labels=%zu relocs=%zu fixups=%zu nodes=%zu bytes=%zu", s.sections, s.labels, s.relocs, s.fixups, s.nodes, tot); return b; }
+std::string snap_text(const Snap& s) { char b[320]; size_t tot = 0; for (size_t z : s.sizes) tot += z; snprintf(b, sizeof b, "sections=%zu labels=%zu relocs=%zu fixups=%zu nodes=%zu bytes=%zu cursor=%p last=%p eflags=%x enc=%x diag=%x forced=%x", s.sections, s.labels, s.relocs, s.fixups, s.nodes, tot, s.cursor, s.last, s.eflags, s.enc, s.diag, s.forced); return b; }
 
 oracle::LlvmMc* g_mc32 = nullptr; oracle::LlvmMc* g_mc64 = nullptr;
 
@@ -110,14 +146,64 @@ void emit_probe(BaseEmitter* e, int mode) {
   x->ret();
 }
 
-Operand make_operand(FuzzedDataProvider& fdp, std::vector<uint32_t>& valid_labels, std::string& txt, int mode) {
+// Register ids: small physical ids as before, plus ids of the virtual range (>= Operand::kVirtIdMin) and the boundaries of both ranges.
+// (The byte consumption of the previous decoder is kept so that the stored corpus keeps its meaning.)
+enum : uint32_t { kSawVirtReg = 1u, kSawVirtBase = 2u, kSawVirtIndex = 4u, kSawBoundaryId = 8u, kSawLabel = 16u, kSawVirtExtra = 32u };
+
+// what the operand really carries (an invalid RegType gives a none operand, a memory operand may have no index ...)
+uint32_t scan_operand(const Operand_& o) {
+  uint32_t f = 0;
+  if (o.is_reg() && Operand::is_virt_id(o.id())) f |= kSawVirtReg;
+  if (o.is_label()) f |= kSawLabel;
+  if (o.is_mem()) {
+    const BaseMem& m = o.as<BaseMem>();
+    if (m.has_base_label()) f |= kSawLabel;
+    if (m.has_base_reg() && Operand::is_virt_id(m.base_id())) f |= kSawVirtBase;
+    if (m.has_index_reg() && Operand::is_virt_id(m.index_id())) f |= kSawVirtIndex;
+  }
+  return f;
+}
+
+const uint32_t kBoundaryIds[] = {31u, 32u, 33u, 63u, 64u, 127u, 128u, 254u, 255u, 256u, 257u, 511u, 0x7FFFFFFFu, 0x80000000u, 0xFFFFFFFEu, 0xFFFFFFFFu};
+
+// one byte: ids 0..40 (4 of 6 classes), 256 + 0..40, or a boundary id
+uint32_t small_or_virt_id(FuzzedDataProvider& fdp, uint32_t& saw, uint32_t virt_flag) {
+  uint32_t v = fdp.ConsumeIntegralInRange<uint32_t>(0, 245);
+  uint32_t lo = v % 41u, cls = v / 41u;
+  (void)virt_flag;
+  if (cls == 4) return Operand::kVirtIdMin + lo;
+  if (cls == 5) { saw |= kSawBoundaryId; return kBoundaryIds[lo % 16u]; }
+  return lo;
+}
+
+// a physical base / index id the mode has no register for (GP: 8 in 32-bit mode, 16 in 64-bit mode; vector index: 8 / 32)
+bool mem_id_outside_register_file(const Operand_& o, int mode) {
+  if (!o.is_mem()) return false;
+  const BaseMem& m = o.as<BaseMem>();
+  auto is_gp = [](RegType t) { return t == RegType::kGp16 || t == RegType::kGp32 || t == RegType::kGp64; };
+  auto is_vec = [](RegType t) { return t == RegType::kVec128 || t == RegType::kVec256 || t == RegType::kVec512; };
+  uint32_t gp_limit = mode == 64 ? 16u : 8u, vec_limit = mode == 64 ? 32u : 8u;
+  if (m.has_base_reg() && is_gp(m.base_type()) && m.base_id() < Operand::kVirtIdMin && m.base_id() >= gp_limit) return true;
+  if (m.has_index_reg() && m.index_id() < Operand::kVirtIdMin) {
+    if (is_gp(m.index_type()) && m.index_id() >= gp_limit) return true;
+    if (is_vec(m.index_type()) && m.index_id() >= vec_limit) return true;
+  }
+  return false;
+}
+
+Operand make_operand(FuzzedDataProvider& fdp, std::vector<uint32_t>& valid_labels, std::string& txt, int mode, uint32_t& saw) {
   int kind = fdp.ConsumeIntegralInRange<int>(0, 7);
   char b[96];
   switch (kind) {
     case 0: txt += "none "; return Operand();
     case 1: case 5: {
       uint32_t t = kind == 5 ? (fdp.ConsumeBool() ? uint32_t(RegType::kGp32) : uint32_t(RegType::kGp64)) : fdp.ConsumeIntegralInRange<uint32_t>(0, 31);
-      uint32_t id = fdp.ConsumeIntegralInRange<int>(0, 7) == 0 ? fdp.ConsumeIntegral<uint32_t>() : fdp.ConsumeIntegralInRange<uint32_t>(0, kind == 5 ? 15 : 40);
+      int sel = fdp.ConsumeIntegralInRange<int>(0, 15);
+      uint32_t id;
+      if (sel == 0) id = fdp.ConsumeIntegral<uint32_t>();
+      else if (sel == 8) id = Operand::kVirtIdMin + (fdp.ConsumeIntegral<uint32_t>() & 63u);
+      else if (sel == 9) { id = kBoundaryIds[fdp.ConsumeIntegralInRange<uint32_t>(0, kind == 5 ? 15 : 40) % 16u]; saw |= kSawBoundaryId; }
+      else id = fdp.ConsumeIntegralInRange<uint32_t>(0, kind == 5 ? 15 : 40);
       snprintf(b, sizeof b, "reg(t%u,%u) ", t, id); txt += b;
       return Reg::from_type_and_id(RegType(t), id);
     }
@@ -128,24 +214,27 @@ Operand make_operand(FuzzedDataProvider& fdp, std::vector<uint32_t>& valid_label
       uint32_t size = fdp.ConsumeBool() ? fdp.ConsumeIntegralInRange<uint32_t>(0, 64) : 0;
       bool has_index = fdp.ConsumeBool();
       uint32_t it = fdp.ConsumeBool() ? uint32_t(mode == 64 ? RegType::kGp64 : RegType::kGp32) : fdp.ConsumeIntegralInRange<uint32_t>(0, 31);
-      uint32_t iid = fdp.ConsumeIntegralInRange<uint32_t>(0, 40);
+      uint32_t iid = small_or_virt_id(fdp, saw, kSawVirtIndex);
       Reg index = Reg::from_type_and_id(RegType(it), iid);
       x86::Mem m;
       if (bk <= 1) {
         uint32_t bt = bk == 0 ? uint32_t(mode == 64 ? RegType::kGp64 : RegType::kGp32) : fdp.ConsumeIntegralInRange<uint32_t>(0, 31);
-        uint32_t bid = fdp.ConsumeIntegralInRange<uint32_t>(0, 40);
+        uint32_t bid = small_or_virt_id(fdp, saw, kSawVirtBase);
         Reg base = Reg::from_type_and_id(RegType(bt), bid);
         m = has_index ? x86::Mem(base, index, shift, off, size) : x86::Mem(base, off, size);
-        snprintf(b, sizeof b, "mem[t%u.%u%s+%d]/%u ", bt, bid, has_index ? "+idx" : "", off, size); txt += b;
+        if (has_index) snprintf(b, sizeof b, "mem[t%u.%u+t%u.%u<<%u+%d]/%u ", bt, bid, it, iid, shift, off, size); else snprintf(b, sizeof b, "mem[t%u.%u+%d]/%u ", bt, bid, off, size);
+        txt += b;
       } else if (bk == 2) {
         uint32_t lid = (!valid_labels.empty() && fdp.ConsumeBool()) ? valid_labels[fdp.ConsumeIntegralInRange<size_t>(0, valid_labels.size() - 1)] : fdp.ConsumeIntegral<uint32_t>();
         Label L(lid);
         m = has_index ? x86::Mem(L, index, shift, off, size) : x86::Mem(L, off, size);
-        snprintf(b, sizeof b, "mem[L%u%s+%d]/%u ", lid, has_index ? "+idx" : "", off, size); txt += b;
+        if (has_index) snprintf(b, sizeof b, "mem[L%u+t%u.%u<<%u+%d]/%u ", lid, it, iid, shift, off, size); else snprintf(b, sizeof b, "mem[L%u+%d]/%u ", lid, off, size);
+        txt += b;
       } else {
         uint64_t abs = fdp.ConsumeBool() ? fdp.ConsumeIntegral<uint64_t>() : uint64_t(uint32_t(off));
         m = has_index ? x86::Mem(abs, index, shift, size) : x86::Mem(abs, size);
-        snprintf(b, sizeof b, "mem[abs %llx%s]/%u ", (unsigned long long)abs, has_index ? "+idx" : "", size); txt += b;
+        if (has_index) snprintf(b, sizeof b, "mem[abs %llx+t%u.%u<<%u]/%u ", (unsigned long long)abs, it, iid, shift, size); else snprintf(b, sizeof b, "mem[abs %llx]/%u ", (unsigned long long)abs, size);
+        txt += b;
       }
       if (fdp.ConsumeBool()) m.set_segment(fdp.ConsumeIntegralInRange<uint32_t>(0, 7));
       if (fdp.ConsumeIntegralInRange<int>(0, 3) == 0) m.set_broadcast(x86::Mem::Broadcast(fdp.ConsumeIntegralInRange<uint32_t>(0, 7)));
@@ -169,6 +258,8 @@ Operand make_operand(FuzzedDataProvider& fdp, std::vector<uint32_t>& valid_label
   }
 }
 
+std::string hex(const uint8_t* p, size_t n) { std::string h; char hb[4]; for (size_t i = 0; i < n && i < 96; i++) { snprintf(hb, sizeof hb, "%02x", p[i]); h += hb; } if (n > 96) h += ".."; return h; }
+
 } // namespace
 
 extern "C" int LLVMFuzzerTestOneInput(const uint8_t* data, size_t size) {
@@ -177,24 +268,50 @@ extern "C" int LLVMFuzzerTestOneInput(const uint8_t* data, size_t size) {
   g.execs++;
   if (size < 4) return 0;
   FuzzedDataProvider fdp(data, size);
-  int ek = fdp.ConsumeIntegralInRange<int>(0, 2);
+  // one byte: emitter kind (v % 3, as before) and the DiagnosticOptions of a Builder / Compiler (v / 3)
+  int ekdk = fdp.ConsumeIntegralInRange<int>(0, 11);
+  int ek = ekdk % 3;
+  int dk = ek == 0 ? 0 : ekdk / 3;      // 0: kValidateAssembler|kValidateIntermediate, 1: kValidateIntermediate, 2: kValidateAssembler, 3: none; the Assembler is always strict
   int mode = fdp.ConsumeBool() ? 32 : 64;
   int hk = fdp.ConsumeIntegralInRange<int>(0, 2);
   Arch arch = mode == 64 ? Arch::kX64 : Arch::kX86;
-  std::string script = std::string(ek == 0 ? "asm" : ek == 1 ? "builder" : "compiler") + (mode == 64 ? "/x64" : "/x86") + (hk == 0 ? "/nohandler" : hk == 1 ? "/recording" : "/throwing") + ": ";
+  static const char* dk_name[] = {"VA+VI", "VI", "VA", "novalidation"};
+  std::string script = std::string(ek == 0 ? "asm" : ek == 1 ? "builder" : "compiler") + (ek ? std::string("[") + dk_name[dk] + "]" : std::string()) + (mode == 64 ? "/x64" : "/x86") + (hk == 0 ? "/nohandler" : hk == 1 ? "/recording" : "/throwing") + ": ";
 
   // Known finding (excluded while listed): x86-32 memory operand with an invalid label id -> label_entry_of() out of bounds
   const bool avoid_x86_32_bad_label = is_known("x86-32-invalid-label-in-mem-oob") && mode == 32;
+  // Known finding (excluded while listed): x86-64 [label + disp] computes disp - (4 + imm_size) + (label - here) in int32_t without a range check:
+  // signed overflow (UBSan) / silently wrapped displacement for disp near INT32_MIN (x86assembler.cpp, "[RIP]" path of the label base)
+  const bool avoid_x64_label_disp_overflow = is_known("x64-label-mem-displacement-overflow") && mode == 64;
+
+  const DiagnosticOptions diag = dk == 0 ? (DiagnosticOptions::kValidateAssembler | DiagnosticOptions::kValidateIntermediate) : dk == 1 ? DiagnosticOptions::kValidateIntermediate : dk == 2 ? DiagnosticOptions::kValidateAssembler : DiagnosticOptions::kNone;
+  const bool validates_intermediate = ek != 0 && (dk == 0 || dk == 1);
+  const bool validates_all = ek == 0 || dk == 0 || dk == 1;   // every accepted instruction has passed validate()
 
   CodeHolder code; code.init(Environment(arch));
   x86::Assembler as; x86::Builder bd; x86::Compiler cc;
   BaseEmitter* e = ek == 0 ? static_cast<BaseEmitter*>(&as) : ek == 1 ? static_cast<BaseEmitter*>(&bd) : static_cast<BaseEmitter*>(&cc);
   BaseBuilder* bb = ek == 0 ? nullptr : static_cast<BaseBuilder*>(ek == 1 ? static_cast<BaseBuilder*>(&bd) : static_cast<BaseBuilder*>(&cc));
   code.attach(e);
-  e->add_diagnostic_options(DiagnosticOptions::kValidateAssembler | DiagnosticOptions::kValidateIntermediate);
+  e->add_diagnostic_options(diag);
   RecHandler rh; rh.throwing = hk == 2;
   if (hk != 0) e->set_error_handler(&rh);
   oracle::LlvmMc& mc = mode == 64 ? *g_mc64 : *g_mc32;
+
+  // ---- shadow: the direct Assembler path of every call the Builder / Compiler accepted (own CodeHolder). Always strict - without validation arbitrary
+  //      operand kinds are outside the property's domain (the non-validating encoder indexes tables with them); Builder::finalize() hands
+  //      kValidateAssembler to the Assembler it creates, a Builder without that option is serialised to a strict Assembler explicitly (below)
+  const bool shadow_on = ek != 0;
+  std::unique_ptr<CodeHolder> code2_p; std::unique_ptr<x86::Assembler> sh_p;
+  if (shadow_on) { code2_p.reset(new CodeHolder()); sh_p.reset(new x86::Assembler()); code2_p->init(Environment(arch)); code2_p->attach(sh_p.get()); sh_p->add_diagnostic_options(DiagnosticOptions::kValidateAssembler); }
+  static CodeHolder* unused_code = new CodeHolder(); static x86::Assembler* unused_asm = new x86::Assembler();
+  CodeHolder& code2 = shadow_on ? *code2_p : *unused_code; x86::Assembler& sh = shadow_on ? *sh_p : *unused_asm;   // only touched when shadow_on
+  bool sh_unsupported = false;     // the two CodeHolders went out of step (label / section ids): no differential verdict
+  bool sh_multi_section = false;   // a section switch succeeded: the Builder groups nodes by section, per-section bytes are not compared
+  bool sh_expect_fail = false;     // the shadow rejected a call the Builder accepted: serialisation has to fail
+  size_t sh_label_reject_count = SIZE_MAX;  // label_count() when the shadow first rejected a call that names labels: a label created later makes the deferred call valid
+  bool accepted_virt = false;      // an accepted instruction carried a virtual-range id (Compiler: no differential, such ids belong to its register allocator)
+  std::string sh_first_reject;
 
   std::vector<uint32_t> labels; std::vector<uint32_t> bound;
   std::vector<Section*> secs; secs.push_back(code.text_section());
@@ -204,17 +321,23 @@ extern "C" int LLVMFuzzerTestOneInput(const uint8_t* data, size_t size) {
   while (fdp.remaining_bytes() > 0 && ops < 24 && emitter_valid) {
     ops++;
     int op = fdp.ConsumeIntegralInRange<int>(0, 15);
-    Snap before = snap(code, bb);
+    Snap before = snap(code, bb, e);
     rh.calls = 0;
     Error err = Error::kOk;
     bool threw = false; Error thrown = Error::kOk;
     bool is_inst = false, must_succeed = false;
     std::string txt;
     size_t off0 = ek == 0 ? as.offset() : 0;
+    // the same call on another emitter / CodeHolder (set by every branch whose call is mirrored on the shadow)
+    std::function<Error(BaseEmitter*, CodeHolder&)> call;
+    uint32_t saw = 0;
+    // arbitrary instruction: kept for the validate() cross-check
+    uint32_t a_id = 0, a_opt = 0, a_n = 0; Operand_ a_ops[6]; RegOnly a_extra; a_extra.reset(); bool arbitrary = false, dropped_operands = false, mem_id_outside = false;
+    Error validate_err = Error::kOk;
     try {
       if (op <= 7) {
         // arbitrary instruction
-        is_inst = true;
+        is_inst = true; arbitrary = true;
         uint32_t id = fdp.ConsumeIntegralInRange<uint32_t>(0, uint32_t(x86::Inst::_kIdCount) + 40);
         if (fdp.ConsumeIntegralInRange<int>(0, 15) == 0) id = fdp.ConsumeIntegral<uint32_t>();
         uint32_t optbits = fdp.ConsumeBool() ? 0 : (fdp.ConsumeIntegral<uint32_t>() & 0xCFEFFFF7u);   // every DEFINED InstOptions bit (undefined bits are outside the typed API)
@@ -222,51 +345,85 @@ extern "C" int LLVMFuzzerTestOneInput(const uint8_t* data, size_t size) {
         uint32_t n = fdp.ConsumeIntegralInRange<uint32_t>(0, 6);
         Operand_ opnds[6];
         char b[64]; snprintf(b, sizeof b, "inst(%u,opt=%x) ", id, optbits); txt = b;
-        bool bad_label_mem32 = false;
+        bool bad_label_mem32 = false, label_disp_overflow = false;
         for (uint32_t i = 0; i < n; i++) {
-          Operand o = make_operand(fdp, labels, txt, mode);
+          Operand o = make_operand(fdp, labels, txt, mode, saw);
           if (o.is_mem() && o.as<x86::Mem>().has_base_label() && !code.is_label_valid(o.as<x86::Mem>().base_id())) bad_label_mem32 = true;
+          if (o.is_mem() && o.as<x86::Mem>().has_base_label() && o.as<x86::Mem>().offset_lo32() < INT32_MIN + 4096) label_disp_overflow = true;
           opnds[i] = o;
+          saw |= scan_operand(o);
+          if (mem_id_outside_register_file(o, mode)) mem_id_outside = true;
         }
         if (avoid_x86_32_bad_label && bad_label_mem32) { g.known_hits["x86-32-invalid-label-in-mem-oob"]++; continue; }
-        if (has_extra) { Reg xr = Reg::from_type_and_id(RegType(fdp.ConsumeIntegralInRange<uint32_t>(0, 31)), fdp.ConsumeIntegralInRange<uint32_t>(0, 40)); e->set_extra_reg(xr); txt += "extra "; }
-        e->set_inst_options(InstOptions(optbits));
-        if (fdp.ConsumeIntegralInRange<int>(0, 7) == 0) e->set_inline_comment("c");
-        err = e->emit_op_array(id, opnds, n);
+        if (avoid_x64_label_disp_overflow && label_disp_overflow) { g.known_hits["x64-label-mem-displacement-overflow"]++; continue; }
+        Reg xr; bool inl = false;
+        if (has_extra) {
+          uint32_t xt = fdp.ConsumeIntegralInRange<uint32_t>(0, 31);
+          uint32_t xid = small_or_virt_id(fdp, saw, kSawVirtExtra);
+          xr = Reg::from_type_and_id(RegType(xt), xid);
+          snprintf(b, sizeof b, "extra(t%u,%u) ", xt, xid); txt += b;
+        }
+        if (fdp.ConsumeIntegralInRange<int>(0, 7) == 0) inl = true;
+        a_id = id; a_opt = optbits; a_n = n; for (uint32_t i = 0; i < 6; i++) a_ops[i] = i < n ? opnds[i] : Operand_(Operand());
+        if (has_extra) { a_extra.init(xr); if (a_extra.is_reg() && Operand::is_virt_id(a_extra.id())) saw |= kSawVirtExtra; }
+        std::vector<Operand_> ov(opnds, opnds + n);
+        call = [=](BaseEmitter* em, CodeHolder&) -> Error {
+          if (has_extra) em->set_extra_reg(xr);
+          em->set_inst_options(InstOptions(optbits));
+          if (inl) em->set_inline_comment("c");
+          return em->emit_op_array(id, ov.data(), n);
+        };
+        err = call(e, code);
       } else if (op == 8) {
         is_inst = true; must_succeed = true; txt = "valid-inst ";
-        x86::Emitter* x = e->as<x86::Emitter>();
-        switch (fdp.ConsumeIntegralInRange<int>(0, 4)) {
-          case 0: err = x->mov(x86::eax, 1); break;
-          case 1: err = x->add(x86::ecx, x86::dword_ptr(x86::esp, 4)); break;
-          case 2: err = x->nop(); break;
-          case 3: err = x->paddd(x86::xmm0, x86::xmm1); break;
-          default: err = x->ret(); break;
-        }
+        int w = fdp.ConsumeIntegralInRange<int>(0, 4);
+        call = [=](BaseEmitter* em, CodeHolder&) -> Error {
+          x86::Emitter* x = em->as<x86::Emitter>();
+          switch (w) {
+            case 0: return x->mov(x86::eax, 1);
+            case 1: return x->add(x86::ecx, x86::dword_ptr(x86::esp, 4));
+            case 2: return x->nop();
+            case 3: return x->paddd(x86::xmm0, x86::xmm1);
+            default: return x->ret();
+          }
+        };
+        err = call(e, code);
       } else if (op == 9) {
         int k = fdp.ConsumeIntegralInRange<int>(0, 3);
-        if (k == 0) { Label L = e->new_label(); if (L.is_valid()) labels.push_back(L.id()); txt = "new_label "; }
+        if (k == 0) {
+          Label L = e->new_label(); if (L.is_valid()) labels.push_back(L.id()); txt = "new_label ";
+          if (shadow_on) { Label L2 = sh.new_label(); if (L2.id() != L.id()) sh_unsupported = true; }
+        }
         else {
           uint32_t lid = (!labels.empty() && k != 3) ? labels[fdp.ConsumeIntegralInRange<size_t>(0, labels.size() - 1)] : fdp.ConsumeIntegral<uint32_t>();
           txt = "bind L" + std::to_string(lid) + " ";
-          err = e->bind(Label(lid));
+          call = [=](BaseEmitter* em, CodeHolder&) -> Error { return em->bind(Label(lid)); };
+          err = call(e, code);
           if (err == Error::kOk) bound.push_back(lid);
         }
       } else if (op == 10) {
         uint32_t am = fdp.ConsumeIntegralInRange<uint32_t>(0, 4);
         uint32_t al = fdp.ConsumeBool() ? (1u << fdp.ConsumeIntegralInRange<uint32_t>(0, 7)) : fdp.ConsumeIntegral<uint32_t>();
         txt = "align(" + std::to_string(am) + "," + std::to_string(al) + ") ";
-        err = e->align(AlignMode(am), al);
+        call = [=](BaseEmitter* em, CodeHolder&) -> Error { return em->align(AlignMode(am), al); };
+        err = call(e, code);
       } else if (op == 11) {
-        uint8_t buf[16] = {1, 2, 3, 4, 5, 6, 7, 8, 9, 10, 11, 12, 13, 14, 15, 16};
         size_t n = fdp.ConsumeIntegralInRange<size_t>(0, 16);
         txt = "embed(" + std::to_string(n) + ") ";
-        err = e->embed(buf, n);
+        call = [=](BaseEmitter* em, CodeHolder&) -> Error { uint8_t buf[16] = {1, 2, 3, 4, 5, 6, 7, 8, 9, 10, 11, 12, 13, 14, 15, 16}; return em->embed(buf, n); };
+        err = call(e, code);
       } else if (op == 12) {
         uint32_t lid = (!labels.empty() && fdp.ConsumeBool()) ? labels[fdp.ConsumeIntegralInRange<size_t>(0, labels.size() - 1)] : fdp.ConsumeIntegral<uint32_t>();
         size_t sz = fdp.ConsumeIntegralInRange<size_t>(0, 9);
-        if (fdp.ConsumeBool()) { txt = "embed_label(L" + std::to_string(lid) + "," + std::to_string(sz) + ") "; err = e->embed_label(Label(lid), sz); }
-        else { uint32_t l2 = (!labels.empty() && fdp.ConsumeBool()) ? labels[fdp.ConsumeIntegralInRange<size_t>(0, labels.size() - 1)] : fdp.ConsumeIntegral<uint32_t>(); txt = "embed_label_delta(L" + std::to_string(lid) + ",L" + std::to_string(l2) + "," + std::to_string(sz) + ") "; err = e->embed_label_delta(Label(lid), Label(l2), sz); }
+        if (fdp.ConsumeBool()) {
+          txt = "embed_label(L" + std::to_string(lid) + "," + std::to_string(sz) + ") ";
+          call = [=](BaseEmitter* em, CodeHolder&) -> Error { return em->embed_label(Label(lid), sz); };
+        } else {
+          uint32_t l2 = (!labels.empty() && fdp.ConsumeBool()) ? labels[fdp.ConsumeIntegralInRange<size_t>(0, labels.size() - 1)] : fdp.ConsumeIntegral<uint32_t>();
+          txt = "embed_label_delta(L" + std::to_string(lid) + ",L" + std::to_string(l2) + "," + std::to_string(sz) + ") ";
+          call = [=](BaseEmitter* em, CodeHolder&) -> Error { return em->embed_label_delta(Label(lid), Label(l2), sz); };
+        }
+        err = call(e, code);
       } else if (op == 13) {
         std::string name = fdp.ConsumeRandomLengthString(12);
         uint32_t lt = fdp.ConsumeIntegralInRange<uint32_t>(0, 5);
@@ -274,9 +431,10 @@ extern "C" int LLVMFuzzerTestOneInput(const uint8_t* data, size_t size) {
         txt = "new_named_label(len=" + std::to_string(name.size()) + ",type=" + std::to_string(lt) + ") ";
         size_t lc = code.label_count();
         Label L = e->new_named_label(name.c_str(), name.size(), LabelType(lt), parent);
+        if (shadow_on) { Label L2 = sh.new_named_label(name.c_str(), name.size(), LabelType(lt), parent); if (L2.id() != L.id()) sh_unsupported = true; }
         if (L.is_valid()) labels.push_back(L.id());
-        else { err = Error::kInvalidLabelName; if (code.label_count() != lc) oracle_fail("failed-new-named-label-created-label", "new_named_label returned an invalid label but label_count grew", script + txt); before = snap(code, bb); continue; }
-        before = snap(code, bb);   // a successful creation legitimately changes the label count
+        else { err = Error::kInvalidLabelName; if (code.label_count() != lc) oracle_fail("failed-new-named-label-created-label", "new_named_label returned an invalid label but label_count grew", script + txt); before = snap(code, bb, e); continue; }
+        before = snap(code, bb, e);   // a successful creation legitimately changes the label count
         continue;
       } else if (op == 14) {
         if (fdp.ConsumeBool() && secs.size() < 4) {
@@ -286,23 +444,37 @@ extern "C" int LLVMFuzzerTestOneInput(const uint8_t* data, size_t size) {
           Error se = code.new_section(Out(s), nm.c_str(), nm.size(), SectionFlags::kNone, al, 0);
           txt = "new_section ";
           if (se == Error::kOk && s) secs.push_back(s); else if (code.section_count() != sc) oracle_fail("failed-new-section-created-section", "new_section failed but section_count grew", script + txt);
+          if (shadow_on) { Section* s2 = nullptr; Error se2 = code2.new_section(Out(s2), nm.c_str(), nm.size(), SectionFlags::kNone, al, 0); if (se2 != se || code2.section_count() != code.section_count()) sh_unsupported = true; }
           continue;
         }
         Section* s = secs[fdp.ConsumeIntegralInRange<size_t>(0, secs.size() - 1)];
-        txt = "section ";
-        err = e->section(s);
-        if (err == Error::kOk) continue;
+        uint32_t sid = s->section_id();
+        txt = "section(" + std::to_string(sid) + ") ";
+        call = [=](BaseEmitter* em, CodeHolder& ch) -> Error { Section* t = ch.section_by_id(sid); return t ? em->section(t) : Error::kInvalidSection; };
+        err = call(e, code);
+        if (err == Error::kOk) {
+          if (shadow_on) { if (sid != 0) sh_multi_section = true; if (call(&sh, code2) != Error::kOk) sh_unsupported = true; }
+          continue;
+        }
       } else {
         std::string cmt = fdp.ConsumeRandomLengthString(20);
         txt = "comment ";
-        err = e->comment(cmt.c_str(), cmt.size());
-        if (err == Error::kOk) continue;
+        call = [=](BaseEmitter* em, CodeHolder&) -> Error { return em->comment(cmt.c_str(), cmt.size()); };
+        err = call(e, code);
+        if (err == Error::kOk) { if (shadow_on) (void)call(&sh, code2); continue; }
       }
     } catch (const Thrown& t) { threw = true; thrown = t.err; err = t.err; }
     script += txt + (err == Error::kOk ? "=ok; " : std::string("=") + DebugUtils::error_as_string(err) + "; ");
     if (script.size() > 3000) script.erase(0, 1000);
 
-    Snap after = snap(code, bb);
+    if (saw & kSawVirtReg) g.classes["operand_virt_id_range"]++;
+    if (saw & kSawVirtBase) g.classes["mem_base_virt_id_range"]++;
+    if (saw & kSawVirtIndex) g.classes["mem_index_virt_id_range"]++;
+    if (saw & kSawVirtExtra) g.classes["extra_reg_virt_id_range"]++;
+    if (saw & kSawBoundaryId) g.classes["operand_boundary_id"]++;
+    const bool has_virt = (saw & (kSawVirtReg | kSawVirtBase | kSawVirtIndex | kSawVirtExtra)) != 0;
+
+    Snap after = snap(code, bb, e);
     if (must_succeed && err != Error::kOk) oracle_fail("valid-instruction-failed-after-errors", std::string("a valid instruction failed with ") + DebugUtils::error_as_string(err), script);
     if (err != Error::kOk) {
       failed++;
@@ -313,6 +485,10 @@ extern "C" int LLVMFuzzerTestOneInput(const uint8_t* data, size_t size) {
       if (hk == 2 && !threw) oracle_fail("throwing-handler-swallowed", "handler threw but the call returned normally", script);
       if (e->inst_options() != InstOptions::kNone || e->extra_reg().is_reg() || e->inline_comment() != nullptr)
         oracle_fail("one-shot-state-not-cleared-after-failure", "inst_options/extra_reg/inline_comment still set after a failed call", script);
+      if (bb) {
+        g.classes["builder_rejected_state_checked"]++;
+        if (is_inst && has_virt && validates_intermediate) g.classes[ek == 1 ? "builder_virt_id_rejected" : "compiler_rejected_with_virt_id"]++;
+      }
     } else {
       if (failed) ok_after_fail++;
       if (hk != 0 && rh.calls != 0) oracle_fail("handler-invoked-on-success", "call returned kOk but the handler was invoked", script);
@@ -323,6 +499,7 @@ extern "C" int LLVMFuzzerTestOneInput(const uint8_t* data, size_t size) {
           size_t n = as.offset() - off0;
           const uint8_t* p = as.buffer_data() + off0;
           if (n == 0) { g.classes["accepted_no_bytes"]++; }
+          else if (mem_id_outside && is_known("mem-base-index-id-outside-register-file")) { g.classes["accepted_not_decoded_known_mem_id"]++; }
           else if (after.relocs == before.relocs && after.fixups == before.fixups) {
             size_t consumed = 0; int cnt = 0;
             while (consumed < n && cnt < 8) { oracle::Decoded d = mc.decode(p + consumed, n - consumed); if (!d.length) break; consumed += d.length; cnt++; }
@@ -335,6 +512,74 @@ extern "C" int LLVMFuzzerTestOneInput(const uint8_t* data, size_t size) {
           }
         }
         g.classes["accepted_instruction"]++;
+        // Known finding: BaseBuilder::_emit counts operands with op_count_from_emit_args(), which stops at the first none of o3..o5 - operands
+        // behind such a gap are dropped without an error (validation sees the truncated list); the Assembler validates all six and refuses.
+        if (bb && arbitrary) {
+          uint32_t bc = 0;
+          if (a_ops[3].is_none()) { for (uint32_t i = 0; i < 3; i++) if (!a_ops[i].is_none()) bc = i + 1; }
+          else bc = a_ops[4].is_none() ? 4u : 5u + uint32_t(!a_ops[5].is_none());
+          for (uint32_t i = bc; i < 6; i++) if (!a_ops[i].is_none()) dropped_operands = true;
+          if (dropped_operands) {
+            const char* key = "builder-drops-operands-behind-none-gap";
+            if (!is_known(key) && validates_intermediate) oracle_fail(key, "kValidateIntermediate accepted an instruction whose operand list has a gap; the node keeps only " + std::to_string(bc) + " operand(s), the rest is dropped silently (the strict Assembler refuses the call)", script);
+            if (is_known(key)) { note_known(key, script); sh_unsupported = true; }
+          }
+        }
+        // Known finding: validate() checks the {k} extra register only for type and id != 0 - ids 8..255 and ids of the virtual range pass and the
+        // encoder ORs (id << 16) into the EVEX prefix (k9 -> no mask + V' flipped, k31 -> {k7} + b + V', 257 -> {k1}): silently a different instruction.
+        // (the REP count register is only compared with cx when its id is physical: an id of the virtual range passes validate() as well)
+        if (arbitrary && validates_all && ek != 2 && a_extra.is_reg() &&
+            ((a_extra.type() == RegType::kMask && a_extra.id() > 7u && !(a_opt & uint32_t(InstOptions::kX86_Rep | InstOptions::kX86_Repne))) || Operand::is_virt_id(a_extra.id()))) {
+          const char* key = "accepted-kmask-extra-reg-id-out-of-range";
+          if (!is_known(key)) oracle_fail(key, "strict validation accepted extra register type " + std::to_string(uint32_t(a_extra.type())) + " id " + std::to_string(a_extra.id()) + " ({k}: k0..k7 exist and the id is shifted into the EVEX prefix unmasked; no emitter but a Compiler owns virtual ids)", script);
+          note_known(key, script);
+        }
+        // Known finding (DESIGN section 7 #12): validate() checks memory base / index ids only for < 32, not against the mode's register file
+        // ("TODO" in x86instapi.cpp): [r13d] in 32-bit mode or GP ids 16..31 pass; the legacy encoder then fails with InvalidRexPrefix (32-bit) but
+        // VEX / EVEX encodings take the id bits into the prefix - in 32-bit mode C4/C5/62 with cleared R/X/B decode as LES/LDS/BOUND: garbage.
+        if (arbitrary && validates_all && ek != 2 && !dropped_operands && mem_id_outside) {
+          const char* key = "mem-base-index-id-outside-register-file";
+          if (!is_known(key)) oracle_fail(key, std::string(ek == 0 ? "the strict Assembler" : "a Builder with kValidateIntermediate") + " accepted a memory operand whose base / index id does not exist in " + (mode == 64 ? "64" : "32") + "-bit mode", script);
+          note_known(key, script);
+        }
+        // Only a Compiler has a register allocator: with strict validation neither an Assembler nor a Builder may accept a register operand,
+        // memory base or memory index whose id lies in the virtual range (the encoder would use the low bits of the id).
+        if (arbitrary && validates_all && ek != 2 && !dropped_operands && (saw & (kSawVirtReg | kSawVirtBase | kSawVirtIndex))) {
+          const char* key = "accepted-virtual-register-id-without-allocator";
+          if (!is_known(key)) oracle_fail(key, std::string(ek == 0 ? "the strict Assembler" : "a Builder with kValidateIntermediate") + " accepted an instruction with a register id >= Operand::kVirtIdMin (" + ((saw & kSawVirtReg) ? "register operand " : "") + ((saw & kSawVirtBase) ? "memory base " : "") + ((saw & kSawVirtIndex) ? "memory index" : "") + ")", script);
+          note_known(key, script);
+        }
+        if (arbitrary && validates_all && ek != 2 && !dropped_operands) g.classes["accepted_checked_no_virtual_ids"]++;
+        if (bb) {
+          if (after.nodes != before.nodes + 1) oracle_fail("builder-accepted-instruction-node-count", "an accepted instruction changed the node count from " + std::to_string(before.nodes) + " to " + std::to_string(after.nodes), script);
+          if (has_virt) { accepted_virt = true; g.classes[ek == 1 ? "builder_accepted_virt_id" : "compiler_accepted_virt_id"]++; }
+          // kValidateIntermediate: what the Builder lets through must be valid for the public validator too, called the way the strict Assembler
+          // calls it (a Builder has no register allocator: no kEnableVirtRegs; a Compiler validates with it)
+          if (arbitrary && validates_intermediate && !dropped_operands) {
+            validate_err = InstAPI::validate(arch, BaseInst(a_id, InstOptions(a_opt), a_extra), a_ops, Globals::kMaxOpCount, ek == 2 ? ValidationFlags::kEnableVirtRegs : ValidationFlags::kNone);
+            g.classes["builder_accepts_checked_against_validate"]++;
+            if (has_virt && ek == 1) g.classes["builder_accepts_checked_against_validate_virt"]++;
+            if (validate_err != Error::kOk) {
+              std::string key = std::string(ek == 1 ? "builder" : "compiler") + "-intermediate-validation-accepts-what-validate-rejects:" + DebugUtils::error_as_string(validate_err);
+              if (!is_known(key)) oracle_fail(key, std::string("the emitter validates intermediate code and accepted (kOk, node appended) an instruction for which InstAPI::validate() reports ") + DebugUtils::error_as_string(validate_err), script);
+              note_known(key, script);
+            }
+          }
+        }
+      }
+      // ---- mirror the accepted call on the shadow Assembler
+      if (shadow_on && call) {
+        Error serr = call(&sh, code2);
+        g.classes["builder_accepts_checked_against_assembler"]++;
+        if (serr != Error::kOk) {
+          if (!sh_expect_fail) sh_first_reject = txt + "=" + DebugUtils::error_as_string(serr);
+          sh_expect_fail = true;
+          if ((!is_inst || (saw & kSawLabel)) && sh_label_reject_count == SIZE_MAX) sh_label_reject_count = code.label_count();
+          g.classes[is_inst ? "builder_accepted_assembler_rejects_instruction" : "builder_accepted_assembler_rejects_other_call"]++;
+          // An instruction that validate() admits and only the encoder refuses is the validator / encoder disagreement of property C13
+          // (validate-vs-strict-assembler), not a state problem: counted per error code; the serialisation below has to fail for it.
+          if (is_inst && validates_intermediate) g.classes[std::string(ek == 1 ? "validated_but_encoder_rejects:" : "compiler_validated_but_assembler_rejects:") + DebugUtils::error_as_string(serr)]++;
+        }
       }
     }
   }
@@ -353,9 +598,66 @@ extern "C" int LLVMFuzzerTestOneInput(const uint8_t* data, size_t size) {
       size_t n0 = count_nodes(bb);
       emit_probe(e, mode);
       if (count_nodes(bb) - n0 != (mode == 64 ? 6u : 5u)) oracle_fail("probe-node-count", "the probe program created an unexpected number of nodes", script);
+      emit_probe(&sh, mode);
     }
   } catch (const Thrown&) { oracle_fail("probe-threw", "a valid probe instruction reported an error", script); }
 
+  // ---- Builder / Compiler: serialise the nodes and compare with the direct Assembler path ----
+  if (shadow_on) {
+    g.classes[dk == 0 ? "builder_validate_both" : dk == 1 ? "builder_validate_intermediate_only" : dk == 2 ? "builder_validate_assembler_only" : "builder_no_validation"]++;
+    if (validates_intermediate) g.classes["builder_validate_intermediate"]++;
+    if (sh_unsupported) g.classes["builder_finalize_skipped_out_of_step"]++;
+    else if (sh_multi_section) g.classes["builder_finalize_skipped_multi_section"]++;
+    else if (ek == 2 && accepted_virt) g.classes["compiler_finalize_skipped_virt_ids"]++;
+    else if (sh_label_reject_count != SIZE_MAX && code.label_count() > sh_label_reject_count) g.classes["builder_finalize_skipped_label_created_after_use"]++;
+    else {
+      Error ferr = Error::kOk;
+      const char* how = "finalize()";
+      try {
+        if (dk == 1 || dk == 3) {
+          // no kValidateAssembler to propagate: the accepted nodes go to a strict Assembler
+          how = "serialize_to(strict Assembler)";
+          x86::Assembler fa(&code); fa.add_diagnostic_options(DiagnosticOptions::kValidateAssembler);
+          ferr = bb->serialize_to(&fa);
+        } else ferr = e->finalize();
+      } catch (const Thrown& t) { ferr = t.err; }
+      script += std::string(how) + "=" + DebugUtils::error_as_string(ferr) + "; ";
+      if (sh_expect_fail) {
+        g.classes["builder_finalize_expected_failure"]++;
+        if (ferr == Error::kOk) {
+          const char* key = "builder-finalize-ok-although-assembler-rejects-a-call";
+          if (!is_known(key)) oracle_fail(key, std::string(how) + " returned kOk, but the direct Assembler rejects one of the accepted calls: " + sh_first_reject, script);
+          note_known(key, script);
+        }
+      } else {
+        g.classes["builder_finalize_compared"]++;
+        if (validates_all) g.classes["builder_finalize_compared_validated"]++;
+        if (ferr != Error::kOk) {
+          std::string key = std::string("builder-finalize-fails-direct-assembler-ok:") + DebugUtils::error_as_string(ferr);
+          if (!is_known(key)) oracle_fail(key, std::string(how) + " failed with " + DebugUtils::error_as_string(ferr) + " although a direct Assembler accepts every call of the script", script);
+          note_known(key, script);
+        } else {
+          Section* t1 = code.text_section(); Section* t2 = code2.text_section();
+          size_t n1 = t1->buffer_size(), n2 = t2->buffer_size();
+          if (n1 != n2 || (n1 && memcmp(t1->data(), t2->data(), n1) != 0)) {
+            const char* key = "builder-serialized-bytes-differ-from-direct-assembler";
+            if (!is_known(key)) oracle_fail(key, "builder path: " + hex(t1->data(), n1) + " direct assembler: " + hex(t2->data(), n2), script);
+            note_known(key, script);
+          }
+          for (uint32_t lid : labels) {
+            if (!code.is_label_valid(lid) || !code2.is_label_valid(lid)) continue;
+            bool b1 = code.is_label_bound(lid), b2 = code2.is_label_bound(lid);
+            if (b1 != b2 || (b1 && code.label_offset(lid) != code2.label_offset(lid)))
+              oracle_fail("builder-serialized-label-differs-from-direct-assembler", "label L" + std::to_string(lid) + " is bound differently on the two paths", script);
+          }
+          if (code.reloc_entries().size() != code2.reloc_entries().size() || code.unresolved_fixup_count() != code2.unresolved_fixup_count())
+            oracle_fail("builder-serialized-relocs-differ-from-direct-assembler", "relocation / fixup counts differ between the two paths", script);
+        }
+      }
+    }
+  }
+
+  if (g.print_script) fprintf(stderr, "SCRIPT %s\n", script.c_str());
   if (failed && ok_after_fail) { g.nontrivial++; if (g.hashes.size() < 2000000) g.hashes.insert(fnv(data, size)); if (g.samples.size() < 4) g.samples.push_back(script.substr(0, 400)); }
   g.classes[ek == 0 ? "emitter_assembler" : ek == 1 ? "emitter_builder" : "emitter_compiler"]++;
   g.classes[hk == 0 ? "handler_none" : hk == 1 ? "handler_recording" : "handler_throwing"]++;
